@@ -479,6 +479,9 @@ def rule_self_exclusion(ctx, rule='R13.11'):
 
 
 def run(ctx):
+    from . import edges
+    edges.rule_threshold_siblings(ctx, 'R01.13')     # one quantity, one literal, one line: particle 0 is a leaf occupant like any other
+    edges.rule_time_direction(ctx, 'R08.12')         # time may be negative and may run backwards: mergers are decided the same way in both directions of time
     from . import c14
     c14.rule_unsorted_removal_moves(ctx)     # R14.14: the re-indexing of pending collisions after a merger assumes "last -> index"
     rule_self_exclusion(ctx)
